@@ -21,7 +21,9 @@ SHAPES_QUICK = [(1, 2, None), (2, 2, None), (2, 2, 1), (2, 2, 2), (3, 2, None), 
                 (1, 2, None, "gen"), (2, 2, 1, "gen"), (1, 3, 1, "badarity"),
                 # "allsync": every function is synchronous (nested graphs without any async node); "wrap": the top-level graph
                 # is exactly one node, a nested graph holding everything
-                (1, 2, None, "allsync"), (2, 2, None, "allsync"), (1, 2, None, "wrap"), (1, 2, 1, "wrap")]
+                (1, 2, None, "allsync"), (2, 2, None, "allsync"), (1, 2, None, "wrap"), (1, 2, 1, "wrap"),
+                # "cached": every function is cache=True and the runner has a (cold) cache backend
+                (1, 2, None, "cached"), (2, 2, 1, "cached")]
 SHAPES_THOROUGH = SHAPES_QUICK + [(2, 3, 1), (2, 3, 2), (3, 2, 2), (3, 3, 3), (3, 2, 1), (3, 3, 2),
                                   (2, 2, None, "sync"), (3, 2, 3, "sync"), (2, 3, 1, "pool"), (2, 3, 1, "pool+sync")]
 
@@ -60,7 +62,7 @@ def run(tier, seed):
         depth, fan, map_at = shape[:3]
         fl = flags_of(shape)
         prog, prov, lists = gen.conc_template(depth, fan, map_at=map_at, sync_last="sync" in fl, pool="pool" in fl, gen_last="gen" in fl, bad_arity="badarity" in fl,
-                                               async_leaves="allsync" not in fl, wrap="wrap" in fl)
+                                               async_leaves="allsync" not in fl, wrap="wrap" in fl, cached="cached" in fl)
         jobs.append(gen.job(i + 1, prog, prov, mode="async", lists=lists))
     res, stats = predict.model_predict(jobs)
     ctx.add_tlc(stats)
@@ -258,7 +260,9 @@ def run_with(job, order, pick, k, pool=False):
     kw = {"max_concurrency": k} if k else {}
     with warnings.catch_warnings():
         warnings.simplefilter("ignore")
-        runner = AsyncRunner()
+        from hypergraph import InMemoryCache
+        cached = any(n.get("cache") for _, n in IR.all_nodes(job["prog"]))
+        runner = AsyncRunner(cache=InMemoryCache()) if cached else AsyncRunner()
         if pool:
             # the program's only top-level node is the mapped graph: call runner.map on that graph itself
             gn = job["prog"]["nodes"][0]
